@@ -554,17 +554,23 @@ def rule(prop):
 
 def partial_clauses(prop):
     return [
-        "merge_children (children appended to the destination, source node removed): no theorem; decided by the "
-        "correspondence and by prop_C08 (Spec.edit_cs) on every implementation output",
-        "merge_leaves (leaves appended, inner nodes stay): no theorem; same",
-        "delete_children: theorem C08_delete_children covers the plain shift to an absent destination; delete_children "
-        "combined with copy / overriding / merge flags / replace: no theorem; same",
-        "replace_position (shift_and_replace / copy_and_replace keep the replaced node's sibling position): no theorem; same",
+        "merge_children: C08_merge_children covers the shift to an absent destination; merging into an existing "
+        "destination node, with copy, or together with delete_children: no theorem (correspondence + prop_C08 on "
+        "every implementation output)",
+        "merge_leaves: C08_merge_leaves_partial holds under the guard 'every child of the source node is a leaf'; deeper "
+        "source subtrees, existing destinations, copy: no theorem; same",
+        "replace_position: C08_replace_position_tt (tree-to-tree, any source node below the root), "
+        "C08_replace_position_left_sibling and C08_replace_position_right_sibling (same tree, source a sibling of the "
+        "replaced node); a source in an unrelated branch of the same tree, nested nodes, delete_children: no theorem; same",
+        "delete_children: C08_delete_children (shift) and C08_delete_children_copy (copy) for an absent destination; with "
+        "overriding / merge flags / replace: no theorem; same",
         "override / shift with one node inside the other, from == to with a merge flag, copy into the source subtree: "
         "no theorem; same (prop_C08 is lenient for destinations inside the source subtree)",
-        "string layer (rstrip/replace/split of the path arguments, find_path / find_full_path resolution): the theorems "
-        "C08_shift_paths, C08_copy_keeps_source, C08_override, C08_delete start from resolved references (cs_core); "
-        "C08_multi_is_sequence and C08_tree_to_tree_source_untouched are about whole calls on path strings",
+        "string layer: C08_shift_whole_call ties rstrip/replace/split, the argument checks, find_full_path and "
+        "add_path_to_tree to the table result for one plain full-path pair under a single-character separator not "
+        "occurring in the names; C08_multi_is_sequence and C08_tree_to_tree_source_untouched are whole-call theorems "
+        "for all inputs; partial from-paths (find_path), leading/trailing separators and differing sep / tree.sep are "
+        "tied to the code by the correspondence only",
         "known finding K3-C08: with a multi-character `sep` the argument normalisation `path.rstrip(sep)` strips a character "
         "set, so a valid pair whose last name ends in a character of sep fails (NotFoundError)",
     ]
